@@ -23,7 +23,8 @@ tiefreq                      -> ok | differ from_frequencies(data/frequencies) i
 rfq <f0,…,f255> <hex>        -> skip | deep | <hex>   C++ ConstructTree + Compress (model of both);
                                 `skip` when the C++ `int` arithmetic would overflow (Σ|f as i32| + 1 ≥ 2^31),
                                 `deep` when a code is longer than 31 bits (`1 << Depth` undefined)
-fqd <f0,…,f255> <cap:hex>…   -> panic | one `ok:<hex>` / `capacity` per item: decoding with the table
+fqd <f0,…,f255> <cap:hex>…   -> panic | h<fnv of compress/compress_bug/lengths of [] and every single byte>
+                                then one `ok:<hex>` / `capacity` per item: decoding with the table
                                 built from the frequencies (one construction, many streams)
 fq <f0,…,f255> <cap> <hex>   -> panic | ok <fnv of code strings> <compress hex> <compress_bug hex>
                                 <len> <lenbug> <decompress of hex at cap: ok:<hex> | capacity>
@@ -199,7 +200,9 @@ def handle (toks : List String) : String :=
       | .ok t =>
         if ¬ (decide (WellFormed t) ∧ decide (LutOk t)) then "ok-but-not-wellformed"
         else
-          listStr' (items.map fun (cap, xs) =>
+          let hh := (List.range 257).foldl (fun h k =>
+            hashCompress t h (if k = 0 then [] else [UInt8.ofNat (k - 1)])) fnvOffset
+          listStr' (s!"h{hh}" :: items.map fun (cap, xs) =>
             match decompressFast t xs cap with
             | .ok out => s!"ok:{toHex out}"
             | .capacity => "capacity"
